@@ -7,6 +7,7 @@
 #include <amgcl/make_solver.hpp>
 #include <amgcl/adapter/crs_tuple.hpp>
 #include <amgcl/coarsening/aggregation.hpp>
+#include <amgcl/coarsening/tentative_prolongation.hpp>
 #include <amgcl/coarsening/smoothed_aggregation.hpp>
 #include <amgcl/coarsening/smoothed_aggr_emin.hpp>
 #include <amgcl/coarsening/ruge_stuben.hpp>
@@ -59,12 +60,14 @@ static std::shared_ptr<crsd> two_stars(vr::rng &g, int n) {
     return vr::from_rows(n, n, rows);
 }
 
-struct item { std::string name, cls; long long bound; bool via_product; std::function<vec(vr::digest&)> f; };
+struct item { std::string name, cls; long long bound; bool via_product; std::function<vec(vr::digest&)> f; bool repro = true; };
 
 static void run_item(const item &it) {
     std::vector<vec> res(NTS); std::vector<vr::digest> dg(NTS);
     bool desc = getenv("VERIF_ORDER") && std::string(getenv("VERIF_ORDER")) == "desc";
-    for (int q = 0; q < NTS; ++q) { int k = desc ? NTS - 1 - q : q; omp_set_num_threads(TS[k]); res[k] = it.f(dg[k]); dg[k].vec(res[k].data(), res[k].size()); }
+    bool repeat_same = true;      // the same thread count twice in a row: bitwise the same result
+    for (int q = 0; q < NTS; ++q) { int k = desc ? NTS - 1 - q : q; omp_set_num_threads(TS[k]); res[k] = it.f(dg[k]); dg[k].vec(res[k].data(), res[k].size());
+        if (it.repro && (TS[k] == 4 || TS[k] == 8 || TS[k] == 17)) { vr::digest d2; vec r2 = it.f(d2); d2.vec(r2.data(), r2.size()); if (d2.h != dg[k].h) repeat_same = false; } }
     omp_set_num_threads(1);
     double spread = 0, scale = 0; bool shape = true;
     for (double v : res[0]) scale = std::max(scale, std::fabs(v));
@@ -77,7 +80,7 @@ static void run_item(const item &it) {
     for (int k = 0; k < NTS; ++k) d << (k ? "," : "") << "[" << dg[k].lo() << "," << dg[k].hi() << "]";
     d << "]";
     vr::obj o; o.str("k", "det").str("name", it.name).str("cls", it.cls).b("via_product", it.via_product).i("spread", ulps).i("bound", it.bound);
-    o.ints("ts", TS, TS + NTS).i("nlow", first_hi).raw("d", d.str());
+    o.ints("ts", TS, TS + NTS).i("nlow", first_hi).raw("d", d.str()).b("repro", it.repro).b("repeat_same", repeat_same);
     vr::emit(o.done());
 }
 
@@ -131,7 +134,7 @@ int main() {
         items.push_back({"amg-smoothed_aggregation-chebyshev", "bitwise", 0, true, [&](vr::digest &d) { return amg_apply<amgcl::coarsening::smoothed_aggregation, amgcl::relaxation::chebyshev>(S, f, d); }});
         // ---- rounding class: cross-thread reduction / critical accumulation / serial<->level-scheduled switch / thread-seeded rng
         items.push_back({"inner_product", "rounding", 8LL * n, false, [&](vr::digest &d) { return vec(1, amgcl::backend::inner_product(f, y0)); }});
-        items.push_back({"transfer-smoothed_aggr_emin", "rounding", 1024, false, [&](vr::digest &d) { vr::digest dd; return transfer<amgcl::coarsening::smoothed_aggr_emin>(S, dd); }});
+        items.push_back({"transfer-smoothed_aggr_emin", "rounding", 1024, false, [&](vr::digest &d) { vr::digest dd; return transfer<amgcl::coarsening::smoothed_aggr_emin>(S, dd); }, false});
         items.push_back({"amg-smoothed_aggregation-ilu0", "rounding", 1LL << 16, true, [&](vr::digest &d) { vr::digest dd; return amg_apply<amgcl::coarsening::smoothed_aggregation, amgcl::relaxation::ilu0>(S, f, dd); }});
         items.push_back({"cg-amg-solve", "rounding", 1LL << 26, true, [&](vr::digest &d) {
             typedef amgcl::make_solver<amgcl::amg<B, amgcl::coarsening::smoothed_aggregation, amgcl::relaxation::spai0>, amgcl::solver::cg<B>> SOL;
@@ -139,13 +142,24 @@ int main() {
         items.push_back({"idrs-amg-solve", "rounding", 1LL << 28, true, [&](vr::digest &d) {
             typedef amgcl::make_solver<amgcl::amg<B, amgcl::coarsening::smoothed_aggregation, amgcl::relaxation::spai0>, amgcl::solver::idrs<B>> SOL;
             SOL::params p; p.precond.coarse_enough = 20; p.solver.tol = 1e-10; SOL s(*S, p); vec x(n, 0.0); s(f, x); return x; }});
+        // tentative prolongation with a user near-null space (3 vectors): through the aggregation coarsening, and
+        // called directly with hand-made aggregates of 5 / 1 / 2 points (fewer points than vectors are allowed there)
+        int ng = G->nrows; std::vector<double> Bns(ng * 3); for (int i = 0; i < ng; ++i) { double x = g.unit(), y = g.unit(); Bns[3*i] = 1.0 + 0.1 * x; Bns[3*i+1] = 1.0 - 0.2 * y; Bns[3*i+2] = x - y + 0.5; }
+        items.push_back({"transfer-aggregation-nullspace3", "bitwise", 0, false, [&](vr::digest &d) {
+            amgcl::coarsening::aggregation<B>::params ap; ap.nullspace.cols = 3; ap.nullspace.B = Bns;
+            amgcl::coarsening::aggregation<B> c(ap); auto PR = c.transfer_operators(*G); dig_crs(d, *std::get<0>(PR)); return flat(*std::get<0>(PR)); }});
+        std::vector<ptrdiff_t> hand; { int a = 0; while ((int)hand.size() + 5 <= 3000) { int sz = (a % 2 == 0) ? 5 : ((a % 4 == 1) ? 1 : 2); for (int k = 0; k < sz; ++k) hand.push_back(a); ++a; } }
+        int nh = hand.size(), nah = hand.back() + 1; std::vector<double> Bh(nh * 3); for (int i = 0; i < nh; ++i) { double x = g.unit(), y = g.unit(); Bh[3*i] = 1.0 + 0.1 * x; Bh[3*i+1] = 1.0 - 0.2 * y; Bh[3*i+2] = x - y + 0.5; }
+        items.push_back({"tentative_prolongation-direct-nullspace3", "bitwise", 0, false, [&](vr::digest &d) {
+            amgcl::coarsening::nullspace_params ns; ns.cols = 3; ns.B = Bh;
+            auto P = amgcl::coarsening::tentative_prolongation<crsd>(nh, nah, hand, ns, 1); dig_crs(d, *P); return flat(*P); }});
         // few large aggregates whose members are spread over the whole index range: every thread
         // accumulates into the same coarse columns at the same time (stresses the critical section)
         auto St = two_stars(g, th ? 60000 : 30000);
         items.push_back({"transfer-smoothed_aggr_emin-stars", "rounding", 4096, false, [&](vr::digest &d) {
             amgcl::coarsening::smoothed_aggr_emin<B>::params ep; ep.aggr.eps_strong = 0;     // every connection strong: two big aggregates
             amgcl::coarsening::smoothed_aggr_emin<B> c(ep); auto PR = c.transfer_operators(*St);
-            vec v = flat(*std::get<0>(PR)); vec r = flat(*std::get<1>(PR)); v.insert(v.end(), r.begin(), r.end()); return v; }});
+            vec v = flat(*std::get<0>(PR)); vec r = flat(*std::get<1>(PR)); v.insert(v.end(), r.begin(), r.end()); return v; }, false});
         for (auto &it : items) run_item(it);
     }
     vr::obj o; o.str("e", "End"); vr::emit(o.done());
